@@ -338,6 +338,20 @@ def check_c04(tier, seed):
                     break
                 if f2 >= first and l2 <= last and (f2, l2) != (first, last):
                     owned -= set(range(f2, l2 + 1))
+            # a whole child constituent deleted (a required sub-constituent, the one mandatory repetition of a "+" list)
+            children = []
+            for (k2, f2, l2) in nodes[ni + 1:]:
+                if f2 > last:
+                    break
+                if f2 >= first and l2 <= last and (f2, l2) != (first, last) and not any(cf <= f2 and l2 <= cl for (_ck, cf, cl) in children):
+                    children.append((k2, f2, l2))
+            nsame = {}
+            for (k2, f2, l2) in children:
+                nsame[k2] = nsame.get(k2, 0) + 1
+            for (k2, f2, l2) in children:
+                key = (k, "dropchild", k2, "only" if nsame[k2] == 1 else "one-of-several")
+                if key not in best or len(best[key]) > len(t) - (l2 - f2 + 1):
+                    best[key] = t[:f2] + t[l2 + 1:]
             owned = sorted(owned)
             for r, idx in enumerate(owned):
                 key = (k, "drop", r, t[idx])
